@@ -87,6 +87,10 @@ def cells(tier, seed):
         for o2 in CMP:
             for kinds in (("int", "int", "dec"), ("int", "dec", "int"), ("dec", "int", "int")):
                 out.append({"k": "cmpkinds", "ops": [o1, o2], "kinds": list(kinds)})
+    # membership: `x in c` is TRUE exactly when c holds an element equal to x (operands of every scalar kind)
+    for form in MEMBER_FORMS:
+        for ck in ("list", "set", "mapkeys", "string"):
+            out.append({"k": "member", "form": form, "ck": ck})
     words = sorted(set(a[1] for a in T.alphabet() if a[0] == "identifier")
                    | {"date with hour", "numerical min_len 2", "numerical exact_len 2",
                       "alphanumerical max_len 3", "in [1, 'abc']", "in 'xabcx'"})
@@ -358,6 +362,8 @@ def run(ctx, cell):
         return run_kinds(ctx, cell)
     if k == "cmpkinds":
         return run_cmpkinds(ctx, cell)
+    if k == "member":
+        return run_member(ctx, cell)
     if k == "ispred":
         return run_ispred(ctx, cell)
     raise AssertionError(k)
@@ -590,6 +596,44 @@ def run_kinds(ctx, cell):
     if o2.kind == "ok":
         ctx.check(str(o2.value) == "['decimal', 'decimal', TRUE]", key + ":result-kind-not-decimal", lambda: str(o2.value))
     return [out.kind, out.value.type()]
+
+
+MEMBER_FORMS = ["x in c", "x not in c", "x is in c", "x is not in c", "not x in c", "x in c and y in c", "x in c or y == x"]
+
+
+def run_member(ctx, cell):
+    ctx.reach("value")
+    form, ck = cell["form"], cell["ck"]
+    key = "C02:member:%s:%s" % (form, ck)
+    if ck == "string":
+        pool = [vstr("a"), vstr("b"), vstr(""), vstr("ab"), vstr("ba")]
+        coll = vstr(("ab", "", "bab")[ctx.choice("c", 3)])
+        x = pool[ctx.choice("x", len(pool))]
+        y = pool[ctx.choice("y", len(pool))] if "y" in form else x
+        inn = lambda v: v.value in coll.value
+    else:
+        pool = [V.NULL, vint(0), vint(1), vdec(1.0), V.TRUE, vstr("a"), vlist([V.NULL])]
+        n = ctx.choice("n", 3)
+        els = [pool[ctx.choice("e%d" % i, len(pool))] for i in range(n)]
+        if ck == "list":
+            coll = vlist(els)
+        elif ck == "set":
+            coll = vset(els)
+        else:
+            coll = vmap([(e, vint(7)) for e in els])
+        x = pool[ctx.choice("x", len(pool))]
+        y = pool[ctx.choice("y", len(pool))] if "y" in form else x
+        inn = lambda v: any(v == e for e in els)
+    ix, iy = inn(x), inn(y)
+    exp = {"x in c": ix, "x not in c": not ix, "x is in c": ix, "x is not in c": not ix, "not x in c": not ix,
+           "x in c and y in c": ix and iy, "x in c or y == x": ix or (x == y)}[form]
+    out = run_ckl(form, {"x": x, "y": y, "c": coll})
+    detail = lambda: {"text": form, "x": str(x), "y": str(y), "c": str(coll), "got": ctx.plain(out), "expected": bool(exp)}
+    if out.kind != "ok":
+        ctx.fail("%s:%s:%s" % (key, out.kind, out.hostname() or "runtime-error"), detail)
+        return out
+    ctx.check(out.value.isBoolean() and out.value.value == bool(exp), key + ":membership-differs-from-equality-with-an-element", detail)
+    return out
 
 
 def run_cmpkinds(ctx, cell):
